@@ -53,7 +53,7 @@ func runC11(c *fw.Ctx) {
 	if !c.Quick {
 		nG, nM = 16, 12
 	}
-	forEachCase(strata, c.N(2500, 60000), func(i int, id string, st *stratum, k int) {
+	forEachCase(strata, c.N(4000, 60000), func(i int, id string, st *stratum, k int) {
 		if !c.Want(i, id) {
 			return
 		}
